@@ -4,7 +4,7 @@ import z3
 from harness import *
 
 LEAFS = ('Para', 'Code', 'Rule', 'Table', 'Ref')
-KINDS = ('Para', 'Header', 'Code', 'Rule', 'Quote', 'Bullet', 'Ordered', 'Table', 'Ref')
+KINDS = ('Para', 'Header', 'Code', 'Rule', 'Quote', 'Bullet', 'Ordered', 'Table', 'Ref', 'EPara')
 
 class Gen:
     """input generator: returns (neutral input tree, liwe DocumentBlocks value)"""
@@ -38,10 +38,13 @@ class Gen:
         kinds = [k for k in self.kinds if nest < self.max_nest or k not in ('Quote', 'Bullet', 'Ordered')]
         k = kinds[ctx.choose(len(kinds))]
         self.budget -= 1
-        if k in ('Para', 'Header', 'Code', 'Ref', 'Table'):
+        if k in ('Para', 'Header', 'Code', 'Ref', 'Table', 'EPara'):
             t = 'T%d' % self.tok; self.tok += 1
         if k == 'Para':
             return {'k': 'Para', 't': t}, h.para([h.istr(t)], self.lr())
+        if k == 'EPara':        # a paragraph whose only inline is an emphasised link (not a block reference)
+            return ({'k': 'Para', 't': t, 'inl': [{'k': 'Emph', 'c': [{'k': 'Link', 'url': 'n' + t, 'c': [{'k': 'Str', 't': t}]}]}]},
+                    h.para([h.iemph([h.ilink('n' + t, t)])], self.lr()))
         if k == 'Header':
             lv = ctx.sym_bv('lv_%s' % t, 8)
             ctx.assume(z3.And(z3.UGE(lv, 1), z3.ULE(lv, 6)))
